@@ -239,6 +239,10 @@ def cases(thorough: bool) -> List[dict]:
     for k, kind, mode, lam in itertools.product((2, 4), ("RC", "RQ"), ("real", "imaginary"), (1e-3, -1.0)):
         out.append({"part": "tr-nnls", "k": k, "scale": 10.0, "ppd": 10, "kind": kind, "mode": mode, "lam": lam, "pre": {"scale": 1e3, "k": 3}})
         out.append({"part": "tr-nnls", "k": k, "scale": 10.0, "ppd": 10, "kind": kind, "mode": mode, "lam": lam, "pre": {"mode": "imaginary" if mode == "real" else "real"}})
+    # the alternative order criterion (pseudo chi-squared) over-fits some noise-free ladders by construction; it is exercised on the
+    # configurations where the unchanged tree recovers the pairs exactly (calibrated once: k=2 at every scale, k=4 at scale 0.1; 5 ppd)
+    for k, scale in ((2, 0.1), (2, 10.0), (2, 1e3), (4, 0.1)):
+        out.append({"part": "lm", "k": k, "scale": scale, "ppd": 5, "kind": "RC", "order_method": "pseudo_chisqr"})
     for k, scale, ppd in itertools.product((1, 2, 3, 4), scales, ppds):
         out.append({"part": "lm", "k": k, "scale": scale, "ppd": ppd, "kind": "RC"})
     for k, scale in itertools.product((1, 2, 3) if not thorough else (1, 2, 3, 4), scales):
